@@ -166,7 +166,8 @@ def _loose(v):
     return None
 
 
-def compare(ref_occ, cur_occ, limit=100000, ambiguous=(), ref_keys=None, cur_keys=None):
+def compare(ref_occ, cur_occ, limit=100000, ambiguous=(), ref_keys=None, cur_keys=None,
+            excl=None):
     """-> (verdict, witness)  verdict in ok / lost / extra / both / changed /
     incomparable."""
     if json.dumps(ref_occ, sort_keys=True) == json.dumps(cur_occ, sort_keys=True):
@@ -186,6 +187,7 @@ def compare(ref_occ, cur_occ, limit=100000, ambiguous=(), ref_keys=None, cur_key
                 return 'changed', '%s in %s -> in %s' % (k[1], lr[k][3], lc[k][3])
     ref_occ = _strip_memo(ref_occ, cur_all, cur_keys)
     cur_occ = _strip_memo(cur_occ, ref_all, ref_keys)
+    fixed_true = []
     # conjuncts every occurrence of both trees has (the guards in front of the part that
     # changed) cannot make the two differ: leave them out of the table
     def js(t):
@@ -196,6 +198,12 @@ def compare(ref_occ, cur_occ, limit=100000, ambiguous=(), ref_keys=None, cur_key
             s_ = {js(t) for t in conj}
             common = s_ if common is None else common & s_
         if common:
+            for conj in ref_occ[:1]:
+                for t in conj:
+                    if js(t) in common and t[0] == 'leaf':
+                        v_, d_, ok_ = _var_of(t[1])
+                        if d_ == 'TF' and ok_ == frozenset({'T'}):
+                            fixed_true.append(v_)
             ref_occ = [[t for t in conj if js(t) not in common] for conj in ref_occ]
             cur_occ = [[t for t in conj if js(t) not in common] for conj in cur_occ]
     rv, cv = _all_vars(ref_occ), _all_vars(cur_occ)
@@ -220,8 +228,17 @@ def compare(ref_occ, cur_occ, limit=100000, ambiguous=(), ref_keys=None, cur_key
     if size > limit:
         return 'incomparable', ''
     lost = extra = None
+    pairs = []
+    if excl is not None:
+        tf = [v for v in names if allv[v] == 'TF']
+        pairs = [(a, b) for i, a in enumerate(tf) for b in tf[i + 1:] if excl(a, b)]
+        # a class test that holds on every path excludes the classes disjoint from it
+        never = [a for a in tf if any(excl(a, b) for b in fixed_true)]
+        pairs += [(a, a) for a in never]
     for combo in itertools.product(*[allv[v] for v in names]):
         env = dict(zip(names, combo))
+        if pairs and any(env[a] == 'T' and env[b] == 'T' for a, b in pairs):
+            continue            # no object is an instance of both classes
         r, c = _holds(ref_occ, env), _holds(cur_occ, env)
         if r and not c and lost is None:
             lost = env
@@ -386,6 +403,69 @@ def _select(pm, patterns):
 _CACHE = {}
 
 
+def _isinstance_parts(v):
+    """(subject text, class names) when variable ``v`` is `isinstance(X, C)` / `isinstance(X,
+    (C1, C2))`."""
+    if v[0] != 'atom' or not v[1].startswith('isinstance('):
+        return None
+    try:
+        call = ast.parse(v[1], mode='eval').body
+    except SyntaxError:
+        return None
+    if not (isinstance(call, ast.Call) and len(call.args) == 2):
+        return None
+    t = call.args[1]
+    elts = t.elts if isinstance(t, ast.Tuple) else [t]
+    names = []
+    for e in elts:
+        if isinstance(e, ast.Attribute):
+            names.append(e.attr)
+        elif isinstance(e, ast.Name):
+            names.append(e.id)
+        else:
+            return None
+    return unparse(call.args[0]), names
+
+
+def exclusivity(pm):
+    """-> f(v1, v2): the two variables are class tests on one subject that no object passes
+    both (classes of the repository, none a subclass of the other, no common subclass)."""
+    by_name = {}
+    for c in pm.classes.values():
+        by_name.setdefault(c.name, []).append(c)
+    memo = {}
+
+    def disjoint(n1, n2):
+        k = (n1, n2)
+        if k not in memo:
+            c1s, c2s = by_name.get(n1), by_name.get(n2)
+            ok = bool(c1s) and bool(c2s)
+            if ok:
+                for a in c1s:
+                    for b in c2s:
+                        if a is b or pm.is_subclass(a, b) or pm.is_subclass(b, a):
+                            ok = False
+                        elif any(pm.is_subclass(x, a) and pm.is_subclass(x, b)
+                                 for x in pm.classes.values()):
+                            ok = False
+            memo[k] = ok
+        return memo[k]
+
+    def excl(v1, v2):
+        p1, p2 = _isinstance_parts(v1), _isinstance_parts(v2)
+        if p1 is None or p2 is None or p1[0] != p2[0]:
+            return False
+        return all(disjoint(a, b) for a in p1[1] for b in p2[1])
+    return excl
+
+
+def _excl(pm):
+    e = getattr(pm, '_effects_excl', None)
+    if e is None:
+        e = pm._effects_excl = exclusivity(pm)
+    return e
+
+
 def _ambiguous(f):
     """Locals bound more than once (their text does not say which value they hold)."""
     from .dataflow import defs
@@ -430,7 +510,7 @@ def run(pm, ctx, rule, funcs, kinds, title, suffix, min_funcs=1, extra_is_violat
                 continue
             n_eff += 1
             verdict, wit = compare(r['occ'], c['occ'], ambiguous=_ambiguous(f),
-                                   ref_keys=set(ref[q]), cur_keys=set(cur))
+                                   ref_keys=set(ref[q]), cur_keys=set(cur), excl=_excl(pm))
             if verdict in ('lost', 'both', 'changed') or \
                     (verdict == 'extra' and r['kind'] in extra_is_violation):
                 problems.append((verdict, key, wit))
@@ -443,7 +523,7 @@ def run(pm, ctx, rule, funcs, kinds, title, suffix, min_funcs=1, extra_is_violat
                 r_all = [conj for k in rk for conj in ref[q][k]['occ']]
                 c_all = [conj for k in ck for conj in cur[k]['occ']]
                 v, _ = compare(r_all, c_all, ambiguous=_ambiguous(f), ref_keys=set(ref[q]),
-                               cur_keys=set(cur))
+                               cur_keys=set(cur), excl=_excl(pm))
                 if v == 'ok':
                     problems = [p for p in problems if not p[1].startswith('raise')]
         ctx.check(rule, not problems,
@@ -514,7 +594,7 @@ def run_refusals(pm, ctx, rule, prefixes, exc_names, title, what, error_lists=('
                 continue
             matched += 1
             verdict, wit = compare(r[key]['occ'], c['occ'], ambiguous=_ambiguous(f),
-                                   ref_keys=set(r), cur_keys=set(cur))
+                                   ref_keys=set(r), cur_keys=set(cur), excl=_excl(pm))
             inst = '%s: %s reported under its confirmed condition' % (f.short, key[:60])
             if verdict not in ('ok', 'incomparable') and c['kind'] == 'raise':
                 rk = sorted(k for k, v in r.items() if v['kind'] == 'raise')
@@ -522,7 +602,7 @@ def run_refusals(pm, ctx, rule, prefixes, exc_names, title, what, error_lists=('
                 if rk == ck:
                     v2, _ = compare([cj for k in rk for cj in r[k]['occ']],
                                     [cj for k in ck for cj in cur[k]['occ']],
-                                    ambiguous=_ambiguous(f), ref_keys=set(r), cur_keys=set(cur))
+                                    ambiguous=_ambiguous(f), ref_keys=set(r), cur_keys=set(cur), excl=_excl(pm))
                     if v2 == 'ok':
                         verdict = 'ok'      # the same inputs are refused, by a sibling check
             if verdict in ('ok', 'incomparable'):
